@@ -216,6 +216,79 @@ def ob_generators(width, rate, timeout):
     return Ob("generators-w%d-r%d" % (width, rate), F("d"), body, lambda d: within(0.0, 1.0, d), fmode="real", timeout=timeout, setup=_setup_sin, funcs=FUNCS[4:5], bounds="duration in [0,1] s at %d Hz, width %d" % (rate, width))
 
 
+def ob_split_files_concrete():
+    """concrete cross-check through real files (wave module + file system are outside the
+    solver's reach): extractSubwav and splitAudioOnTier write, per entry, the same samples with
+    the source's parameters; on sample positions these are exactly the source samples"""
+    import os
+    import shutil
+    import tempfile
+    import wave
+
+    from praatio import praatio_scripts, textgrid as tgapi
+    from praatio.data_classes.interval_tier import IntervalTier
+    from praatio.data_classes.textgrid import Textgrid
+    from praatio.utilities.constants import Interval
+
+    CASES = [[(0.5, 1.0, "a"), (1.5, 2.25, "b")], [(0.424, 0.678, "a"), (1.126, 1.374, "b")], [(0.005, 0.015, "a"), (2.996, 3.0, "b")], [(0.0, 3.0, "whole")]]
+
+    def check(c):
+        rate, n = 100, 300
+        src = [((i * 37) % 200) - 100 for i in range(n)]
+        d = tempfile.mkdtemp(prefix="verif_c17_")
+        try:
+            wfn = os.path.join(d, "src.wav")
+            w = wave.open(wfn, "w")
+            w.setparams((1, 2, rate, n, "NONE", "not compressed"))
+            w.writeframes(_struct.pack("<" + "h" * n, *src))
+            w.close()
+            tg = Textgrid(0, n / rate)
+            tg.addTier(IntervalTier("words", [Interval(*e) for e in CASES[c]], 0, n / rate))
+            tg.addTier(IntervalTier("other", [Interval(0.0, 0.4, "o")], 0, n / rate))
+            tfn = os.path.join(d, "src.TextGrid")
+            tg.save(tfn, "short_textgrid", True)
+            out = os.path.join(d, "out")
+            res = praatio_scripts.splitAudioOnTier(wfn, tfn, "words", out, True)
+            if len(res) != len(CASES[c]):
+                return "one file per entry"
+            for (s, e, l), (rs, re_, fn) in zip(CASES[c], res):
+                f = wave.open(os.path.join(out, fn), "r")
+                got = list(_struct.unpack("<" + "h" * f.getnframes(), f.readframes(f.getnframes())))
+                if (f.getnchannels(), f.getsampwidth(), f.getframerate()) != (1, 2, rate):
+                    return "parameters of the written file"
+                f.close()
+                ref = os.path.join(d, "ref.wav")
+                audio.extractSubwav(wfn, ref, s, e)
+                g = wave.open(ref, "r")
+                want = list(_struct.unpack("<" + "h" * g.getnframes(), g.readframes(g.getnframes())))
+                g.close()
+                if got != want:
+                    return "splitAudioOnTier and extractSubwav disagree for [%r, %r]: %d vs %d samples" % (s, e, len(got), len(want))
+                i, j = round(s * rate), round(e * rate)
+                if abs(s * rate - i) < 1e-9 and abs(e * rate - j) < 1e-9 and got != src[i:j]:
+                    return "file does not hold the source samples of the interval"
+                sub = tgapi.openTextgrid(os.path.join(out, fn.replace(".wav", ".TextGrid")), False)
+                if abs(sub.maxTimestamp - (e - s)) > 1e-9 or sub.minTimestamp != 0:
+                    return "cropped textgrid span"
+                if [x[2] for x in sub.getTier("words").entries] != [l]:
+                    return "cropped textgrid label"
+            return True
+        finally:
+            shutil.rmtree(d, ignore_errors=True)
+
+    def run():
+        for c in range(len(CASES)):
+            try:
+                r = check(c)
+            except Exception as ex:  # noqa
+                r = "exception " + type(ex).__name__ + ": " + str(ex)[:100]
+            if r is not True:
+                return {"verdict": "REFUTED", "queries": c + 1, "cex_args": {"c": c}, "message": str(r), "refute_kind": "CONCRETE"}
+        return {"verdict": "CONFIRMED", "queries": len(CASES), "detail": "concrete cross-check through real wav/TextGrid files"}
+
+    return Ob("split-files-concrete", I("c"), check, kind="smt", smt=run, timeout=120, funcs=["praatio.praatio_scripts.splitAudioOnTier", "praatio.audio.extractSubwav"], bounds="concrete cross-check: 300-sample 100 Hz recording, 4 interval sets on and off sample positions")
+
+
 def obligations(tier):
     obs = []
     if tier == "quick":
@@ -228,7 +301,9 @@ def obligations(tier):
         obs.append(ob_read(0, "keep", False, 2, 30))
         obs.append(ob_both_lists(30))
         obs.append(ob_generators(2, 8, 120))
+        obs.append(ob_split_files_concrete())
     else:
+        obs.append(ob_split_files_concrete())
         for which in ("keep", "delete"):
             for k in (1, 2, 3):
                 obs.append(ob_partition(k, which, 900))
